@@ -258,7 +258,12 @@ def drive(recipe):
         # a caller may choose the grid: any nphi >= 2L+1 and ntheta >= L+1 (odd or even) is an exact quadrature for the band limit
         # the band limit may come out of an integer array (np.arange, a header field): same object
         Larg = (L, np.int64(L), np.int32(L))[recipe["seed"] % 3]
-        sht = SHT(Larg, nphi=recipe["grid"][0], ntheta=recipe["grid"][1]) if recipe.get("grid") else SHT(Larg)
+        if recipe.get("grid"):
+            # both sizes, or only one of them (the other follows the default rule)
+            gkw = {k: v for k, v in (("nphi", recipe["grid"][0]), ("ntheta", recipe["grid"][1])) if v}
+            sht = SHT(Larg, **gkw)
+        else:
+            sht = SHT(Larg)
     except Exception as e:                   # an exception of the implementation is an observation
         t["exc"] = type(e).__name__
         return t
@@ -293,6 +298,11 @@ def drive(recipe):
         t["w"] = [fx(2.0 * math.pi * x) for x in w]
     ne = recipe.get("ne", 0)
     epts = [(rng.uniform(0.05, math.pi - 0.05), rng.uniform(0.0, 2 * math.pi)) for _ in range(ne)]
+    if ne >= 6:
+        # a latitude, then a pole, then the same latitude again (nothing may be remembered of the pole)
+        epts[ne - 3] = (epts[ne - 3][0], epts[ne - 3][1])
+        epts[ne - 2] = ((0.0, math.pi)[recipe["seed"] % 2], epts[ne - 2][1])
+        epts[ne - 1] = (epts[ne - 3][0], epts[ne - 1][1])
     # the azimuth is periodic, not bounded: what arctan2 returns (negative angles) and angles past a full turn are the same points
     for k in range(len(epts)):
         if (recipe["seed"] + k) % 3 == 0:
@@ -463,6 +473,10 @@ def recipes_for(ctx):
                 if gk == 0:
                     rs.append({"L": L, "kind": kind, "vec": sparse_spec(L, kind, rng, 8), "prog": "eval", "seed": nxt(),
                                "ne": 6, "grid": [2 * L + 1, L + 1]})
+                    # only one of the two sizes given
+                    rs.append({"L": L, "kind": kind, "vec": sparse_spec(L, kind, rng, 6), "prog": "main", "seed": nxt(),
+                               "g1": sparse_spec(L, kind, rng, 1), "g2": sparse_spec(L, kind, rng, 1), "k1": 2, "k2": -3,
+                               "grid": [0, L + 1 + (L % 3)] if L % 2 else [2 * L + 1 + (L % 4), 0]})
             if kind == "cplx" and L <= 20:
                 # a purely imaginary function (i times a real one) held in a complex array
                 rs.append({"L": L, "kind": kind, "vec": {"type": "ireal", "seed": nxt()}, "prog": "main", "seed": nxt(),
